@@ -242,8 +242,9 @@ Record header := { h_len : Z; h_cmd : Z; h_status : Z; h_seq : Z }.
 Definition parse_header (b : list Z) : res header :=
   do len <- unpackI b 0; do cmd <- unpackI b 4; do st <- unpackI b 8; do seq <- unpackI b 12;
   if negb (mem cmd SmppCommand_values) then Err EXN_ValueError
-  else if negb (mem st SmppCommandStatus_values) then Err EXN_ValueError
-  else Ok {| h_len := len; h_cmd := cmd; h_status := st; h_seq := seq |}.
+  else (* a reserved or vendor specific status is read as ESME_RUNKNOWNERR (the number stays in the raw PDU) *)
+       Ok {| h_len := len; h_cmd := cmd; h_status := if mem st SmppCommandStatus_values then st else SmppCommandStatus_ESME_RUNKNOWNERR;
+             h_seq := seq |}.
 
 (* bytes.index(NULL, start): position of the first 0 at or after start *)
 Fixpoint find_nul (b : list Z) (pos : nat) : option nat :=
